@@ -200,6 +200,8 @@ def plan(tier):
     units.append(('prefix',))
     units.append(('contexts',))
     units.append(('scale',))
+    for lo in range(0, 256, 16):
+        units.append(('bytes', lo, lo + 16))
     return {
         'units': units,
         'rule': '(a) every byte string over the 16-character alphabet '
@@ -209,7 +211,9 @@ def plan(tier):
                 'separators x 5 trailers with a bounded number of '
                 'non-default tokens (1 pair: full product); (c) "#", 0-4 '
                 'dots, 10 names, ":" present/doubled/missing/spaced; (d) the '
-                'same option strings on every legal header kind. Each '
+                'same option strings on every legal header kind; (e) every byte '
+                'value 0..255 in every grammatical position and every pair of '
+                'byte values as a value / key tail. Each '
                 'candidate is read by the real DiffXReader in a context '
                 'where its section id is legal. Oracle: the grammar of the '
                 'statement as one anchored regex: accept <=> full match; '
@@ -277,6 +281,32 @@ def run_unit(unit, tier):
             one(b'#.change:' + build_tokens(vec, npairs))
         acc.sample({'token_header': repr(b'#.change:' + build_tokens(
             [d[0] for d in doms], npairs))}, 1)
+    elif unit[0] == 'bytes':
+        # completeness over byte VALUES: every byte in every grammatical
+        # position (and every pair of bytes as a value / key tail)
+        skip = {0x0a}
+        for b1 in range(unit[1], unit[2]):
+            if b1 in skip:
+                continue
+            x = bytes([b1])
+            for h in (b'#.change: ' + x + b'=v', b'#.change: a' + x + b'=v',
+                      b'#.change: ab' + x + b'c=v', b'#.change: a=' + x,
+                      b'#.change: a=' + x + b'v', b'#.change: a=v' + x,
+                      b'#.change: a=v' + x + b'w', b'#.change: a=1' + x + b'2',
+                      b'#.change: a=v,' + x + b'b=w',
+                      b'#.change: a=v' + x + b' b=w',
+                      b'#.change:' + x + b'a=v', b'#.change' + x + b' a=v',
+                      b'#' + x + b'change: a=v', x + b'#.change: a=v',
+                      b'#.chang' + x + b': a=v',
+                      b'#.change: a=v, b=w' + x):
+                one(h)
+            for b2 in range(256):
+                if b2 in skip:
+                    continue
+                y = bytes([b2])
+                one(b'#.change: a=' + x + y)
+                one(b'#.change: a' + x + y + b'=v')
+        acc.sample({'byte_values': [unit[1], unit[2] - 1]}, 1)
     elif unit[0] == 'scale':
         from mc.alphabets import BOUNDARY_SIZES_Q
         for n in BOUNDARY_SIZES_Q + [9, 10, 11, 99, 100, 101]:
